@@ -13,6 +13,7 @@ import GocoinV.Proofs.C16Live
 import GocoinV.Proofs.C16Listing
 import GocoinV.Proofs.C16SnappyLen
 import GocoinV.Proofs.C16Trust
+import GocoinV.Proofs.C16Window
 namespace GocoinV.Props.C16
 open GocoinV GocoinV.BlockDB
 
@@ -180,18 +181,18 @@ example : ([1, 2, 3] : Bytes).length ≤ 0xffffffff := by decide
 theorem store_refines_map_partial (env : Env)
     (hrt : ∀ x : Bytes, x.length ≤ 0xffffffff → env.dec (env.enc x) = some x) (hne : ∀ x, env.enc x ≠ [])
     (o : Opts) (hk : o.keep = 0) (ops : List Op) (hops : ∀ op ∈ ops, op.isReopen = false ∧ op.sizeOK) :
-    AllHold (specRun {} (.reopen o :: ops)) (run env init (.reopen o :: ops)).2 :=
+    AllHold (specRun env init {} (.reopen o :: ops)) (run env init (.reopen o :: ops)).2 :=
   session_refines env ⟨hrt, hne⟩ o hk ops hops
 
 /-- the specification makes real claims: on this history it demands A's bytes from the `get` and 81 from `length` -/
-example : specRun {} [.reopen optsW, .add (hashW blkA) 10 1 false blkA, .idle, .get (hashW blkA), .length (hashW blkA) true]
+example : specRun (toyEnv true) init {} [.reopen optsW, .add (hashW blkA) 10 1 false blkA, .idle, .get (hashW blkA), .length (hashW blkA) true]
     = [.nothing, .nothing, .nothing, .data blkA false, .len 81] := by decide
 
 /-- The same with the codec the store really uses — the snappy model, exactly the environment `oracle_c16` runs and the
     harness compares with the Go code (any header-hash function): no hypothesis about the codec is left. -/
 theorem store_refines_map_snappy_partial (hash : Bytes → Bytes) (adv : Bool)
     (o : Opts) (hk : o.keep = 0) (ops : List Op) (hops : ∀ op ∈ ops, op.isReopen = false ∧ op.sizeOK) :
-    AllHold (specRun {} (.reopen o :: ops)) (run (snappyEnv hash adv) init (.reopen o :: ops)).2 :=
+    AllHold (specRun (snappyEnv hash adv) init {} (.reopen o :: ops)) (run (snappyEnv hash adv) init (.reopen o :: ops)).2 :=
   session_refines _ (snappyEnv_ok hash adv) o hk ops hops
 
 example : ∀ op ∈ [Op.add (hashW blkA) 10 1 false blkA, .idle, .get (hashW blkA)], op.isReopen = false ∧ op.sizeOK := by
@@ -208,7 +209,7 @@ example : ∀ op ∈ [Op.add (hashW blkA) 10 1 false blkA, .idle, .get (hashW bl
 theorem data_file_invariant (env : Env)
     (hrt : ∀ x : Bytes, x.length ≤ 0xffffffff → env.dec (env.enc x) = some x) (hne : ∀ x, env.enc x ≠ [])
     (s : State) (sp : Spec) (h : Ref env s sp) (op : Op) (hno : op.isReopen = false) (hsz : op.sizeOK) :
-    Ref env (step env s op).1 (specStep sp op) :=
+    Ref env (step env s op).1 (specStep s sp op) :=
   (step_ref env ⟨hrt, hne⟩ s sp h op hno hsz).1
 
 /-- Nothing stays queued: after ANY history (restarts, every option combination, any codec) the flush that Idle and
@@ -243,11 +244,11 @@ theorem store_refines_map_restarts (env : Env)
     (hrt : ∀ x : Bytes, x.length ≤ 0xffffffff → env.dec (env.enc x) = some x) (hne : ∀ x, env.enc x ≠ [])
     (hfix : env.advInvalid = Gen.BlockDBFacts.advInvalid) (ops : List Op)
     (hops : ∀ op ∈ ops, Op.wf env op ∧ op.keep0) (hlen : ops.length < 2^31) :
-    AllHold (specRun {} ops) (run env init ops).2 :=
+    AllHold (specRun env init {} ops) (run env init ops).2 :=
   restart_refines env ⟨hrt, hne⟩ (by rw [hfix]; exact fixed_code) ops hops hlen
 
 /-- the claims survive the restart: on this history the specification demands A's bytes after close + reopen -/
-example : specRun {} [.reopen optsW, .add (hashW blkA) 10 1 false blkA, .close, .reopen optsW, .get (hashW blkA)]
+example : specRun (toyEnv true) init {} [.reopen optsW, .add (hashW blkA) 10 1 false blkA, .close, .reopen optsW, .get (hashW blkA)]
     = [.nothing, .nothing, .nothing, .nothing, .data blkA false] := by decide
 
 /-- well-formed operations for the real codec, without reference to the encoder: the hash is the hash of the header, the
@@ -261,7 +262,7 @@ def Op.wfPlain (hash : Bytes → Bytes) : Op → Prop
     `(Snappy.encode x).length ≤ 11 + 6·x.length` (Proofs/C16SnappyLen.lean, from the decoder's side). -/
 theorem store_refines_map_restarts_snappy (hash : Bytes → Bytes) (ops : List Op)
     (hops : ∀ op ∈ ops, Op.wfPlain hash op ∧ op.keep0) (hlen : ops.length < 2^31) :
-    AllHold (specRun {} ops) (run (snappyEnv hash Gen.BlockDBFacts.advInvalid) init ops).2 := by
+    AllHold (specRun (snappyEnv hash Gen.BlockDBFacts.advInvalid) init {} ops) (run (snappyEnv hash Gen.BlockDBFacts.advInvalid) init ops).2 := by
   refine restart_refines _ (snappyEnv_ok hash _) fixed_code ops ?_ hlen
   intro op hop
   obtain ⟨h1, h2⟩ := hops op hop
@@ -282,15 +283,16 @@ example : Op.wfPlain (fun h => h.take 32) (.add (hashW blkA) 10 1 false blkA) :=
     every key that was added and never marked invalid, exactly ONE entry, and it carries the hash of the block's header,
     the header, the height and transaction count given to the first BlockAdd and the block's size; every listed entry
     belongs to a key that was added; and the append position is the end of the index file (appending continues behind
-    every listed record). `specFinal {} ops` is the durable map after the history. -/
+    every listed record). `specFinal env init {} ops` is the durable map after the history (an entry that was marked invalid while its block was
+    still queued is gone from it; a block stored again under that hash is a new entry and is listed with ITS fields). -/
 theorem reopen_index (env : Env) (hfix : env.advInvalid = Gen.BlockDBFacts.advInvalid) (ops : List Op)
     (hops : ∀ op ∈ ops, Op.wf env op) (hlen : ops.length < 2^31)
     (hclosed : (run env init ops).1.isOpen = false) (o : Opts) :
     ∃ ws, (step env (run env init ops).1 (.reopen o)).2 = .walk ws ∧
-      (∀ k e, AL.get (specFinal {} ops).m k = some e → e.tainted = false →
+      (∀ k e, AL.get (specFinal env init {} ops).m k = some e → e.tainted = false →
         ws.filter (fun w => decide (keyOf w.hash = k)) =
           [⟨env.hash (e.raw.take 80), e.raw.take 80, e.height, e.raw.length, e.txcount⟩]) ∧
-      (∀ w ∈ ws, ∃ e, AL.get (specFinal {} ops).m (keyOf w.hash) = some e) ∧
+      (∀ w ∈ ws, ∃ e, AL.get (specFinal env init {} ops).m (keyOf w.hash) = some e) ∧
       (step env (run env init ops).1 (.reopen o)).1.maxidxfilepos = (run env init ops).1.fs.idx.length := by
   have hadv : env.advInvalid = true := by rw [hfix]; exact fixed_code
   have hC := run_core env hadv ops init {} 0 (init_core env) hops (by omega)
@@ -308,7 +310,7 @@ example : (run (toyEnv true) init [.reopen optsW, .add (hashW blkA) 10 1 false b
 theorem reopen_index_trusted (env : Env) (hfix : env.advInvalid = Gen.BlockDBFacts.advInvalid) (ops : List Op)
     (hops : ∀ op ∈ ops, Op.wf env op) (hlen : ops.length < 2^31)
     (hclosed : (run env init ops).1.isOpen = false) (o : Opts) :
-    ∀ k e, AL.get (specFinal {} ops).m k = some e → e.tainted = false →
+    ∀ k e, AL.get (specFinal env init {} ops).m k = some e → e.tainted = false →
       ∃ r0 r, AL.get (run env init ops).1.index k = some r0 ∧
         AL.get (reopen env (run env init ops).1.fs o).1.index k = some r ∧ r.trusted = e.trusted ∧
         r.olen = e.raw.length ∧ r.fpos = r0.fpos ∧ r.blen = r0.blen ∧ r.datfileidx = r0.datfileidx := by
@@ -379,8 +381,61 @@ example : specRunR (toyEnv true) init {} retentionHistory
     = [.nothing, .nothing, .nothing, .nothing, .nothing, .nothing, .data (blk200 2) false, .len 200, .nothing, .nothing,
        .data (blk200 2) false] ∧ (run (toyEnv true) init retentionHistory).1.fs.lost = [0] := by decide
 
+/-! ## the retention POLICY: what `FS.lost` can contain (audit item: "within the configured retention" was circular) -/
+
+/-- The regenerated structural fact: LoadBlockIndex moves the current data file back from oldat/ before it opens it with
+    O_CREATE (the repair of the former finding `backup-shadowed-by-new-file`). With it the only writer of the ghost list
+    `FS.lost` is `removeDatFile` without backup. -/
+theorem fixed_code_restore : Gen.BlockDBFacts.restoresBackup = true := by decide
+
+/-- The exclusion of `store_refines_map` is bounded by the CONFIGURED retention, for every history and every option
+    combination: every data-file number `i` in the ghost list `FS.lost` after a history was put there by one operation
+    `op` of the history (`ops = pre ++ op :: suf`, `i` not lost before it), and in the state right after that operation
+    `OutsideWindow` holds: `DataFilesKeep ≠ 0`, `DataFilesBackup = false` and `i + keep < maxdatfileidx` — the file was
+    below the current file minus `keep` at the moment it was lost (roll-over: file `old − keep` with new current file
+    `old + 1`; LoadBlockIndex clean-up: files `max − keep − 1 … max − keep − 3`). A store that removes one file too many
+    (file `maxdatfileidx − keep` itself), removes a file although a backup is configured, or loses a file in any other
+    operation contradicts this theorem — not only the harness. -/
+theorem lost_outside_keep_window (env : Env) (ops : List Op) (i : Nat)
+    (h : i ∈ (run env init ops).1.fs.lost) :
+    ∃ pre op suf, ops = pre ++ op :: suf ∧ i ∉ (run env init pre).1.fs.lost ∧
+      i ∈ (run env init (pre ++ [op])).1.fs.lost ∧ OutsideWindow (run env init (pre ++ [op])).1 i := by
+  rcases run_lost env fixed_code_restore ops init i h with h0 | h1
+  · simp [init] at h0
+  · exact h1
+
+/-- … per operation: a number that is lost after an operation was lost before it or is outside the window configured in
+    the state after it; and within a session the window only moves up (`Grows`: same options, `maxdatfileidx` does not
+    decrease), so a number outside the window stays outside until the next restart. -/
+theorem lost_step (env : Env) (s : State) (op : Op) (i : Nat) (h : i ∈ (step env s op).1.fs.lost) :
+    i ∈ s.fs.lost ∨ OutsideWindow (step env s op).1 i :=
+  step_lost env fixed_code_restore s op i h
+
+/-- the claim of `store_refines_map` is dropped (`keyLost`) only for a key whose written record points into a data file that
+    left the configured window at some operation of the history -/
+theorem claim_dropped_only_outside_window (env : Env) (ops : List Op) (k : Key)
+    (h : keyLost (run env init ops).1 k = true) :
+    ∃ r, AL.get (run env init ops).1.index k = some r ∧ r.ipos.isSome = true ∧
+      ∃ pre op suf, ops = pre ++ op :: suf ∧ r.datfileidx ∉ (run env init pre).1.fs.lost ∧
+        OutsideWindow (run env init (pre ++ [op])).1 r.datfileidx := by
+  unfold keyLost at h
+  split at h
+  · rename_i r hr
+    simp only [Bool.and_eq_true, List.contains_eq_mem, decide_eq_true_eq] at h
+    obtain ⟨pre, op, suf, e1, e2, _, e4⟩ := lost_outside_keep_window env ops r.datfileidx h.2
+    exact ⟨r, hr, h.1, pre, op, suf, e1, e2, e4⟩
+  · cases h
+
+set_option maxRecDepth 1000000 in
+/-- non-vacuity: in `retentionHistory` (keep = 1, no backup) file 0 is lost by the `idle` flush whose second roll-over makes
+    file 2 the current one: 0 + 1 < 2 -/
+example : (run (toyEnv true) init retentionHistory).1.fs.lost = [0] ∧
+    (run (toyEnv true) init (retentionHistory.take 4)).1.fs.lost = [] ∧
+    (run (toyEnv true) init (retentionHistory.take 5)).1.fs.lost = [0] ∧
+    (run (toyEnv true) init (retentionHistory.take 5)).1.maxdatfileidx = 2 := by decide
+
 def optsKB : Opts := ⟨1, 200, 1, true, false⟩
-/-- the known finding `backup-shadowed-by-new-file` as a model history: three 200-byte blocks in data files 0, 1, 2 (file 0
+/-- the FORMER finding `backup-shadowed-by-new-file` as a model history: three 200-byte blocks in data files 0, 1, 2 (file 0
     is moved to oldat/), B and C marked invalid, restart, get A -/
 def shadowHistory : List Op :=
   [.reopen optsKB, .add (hashW (blk200 1)) 1 1 false (blk200 1), .add (hashW (blk200 2)) 2 1 false (blk200 2),
@@ -388,14 +443,52 @@ def shadowHistory : List Op :=
    .reopen optsKB, .get (hashW (blk200 1))]
 
 set_option maxRecDepth 1000000 in
-/-- The one exclusion of `store_refines_map` is necessary. On the known finding the unconditional claim is FALSE of the model (and of the code: corpus/C16/backup-fallback-after-
-    invalid.json replays it): the durable map demands A's bytes, the store answers with a short read — and the retention
-    claim `claimR` excludes exactly this `get`: file 0 is in `FS.lost` because the restart created a new, empty file 0
-    in the main directory over the one in oldat/. -/
-theorem backup_shadowed_counterexample :
-    (specRun {} shadowHistory).getLast? = some (.data (blk200 1) false) ∧
-    (run (toyEnv true) init shadowHistory).2.getLast? = some (.getErr .shortRead false) ∧
-    (specRunR (toyEnv true) init {} shadowHistory).getLast? = some .nothing ∧
-    (run (toyEnv true) init shadowHistory).1.fs.lost = [0] := by decide
+/-- Regression witness of the repair (`fix:` commits in /repo; corpus/C16/backup-fallback-after-invalid.json and
+    corpus/C16/file-number-reused-*.json replay it on the real code): the invalid records of files 1 and 2 still count, so
+    LoadBlockIndex keeps appending to file 2 instead of falling back to file 0; file 0 stays in oldat/ and A is read back
+    from there; nothing is lost. (Before the repair: `maxdatfileidx = 0`, a new empty file 0 in the main directory
+    shadowed the backup — short read, `lost = [0]`; without backup the number 0 was reused and a later read of A returned
+    the bytes of another block or zeros.) -/
+theorem backup_restored_witness :
+    (specRunR (toyEnv true) init {} shadowHistory).getLast? = some (.data (blk200 1) false) ∧
+    (run (toyEnv true) init shadowHistory).2.getLast? = some (.data (blk200 1) false) ∧
+    (run (toyEnv true) init shadowHistory).1.fs.lost = [] ∧
+    (run (toyEnv true) init shadowHistory).1.maxdatfileidx = 2 ∧
+    (AL.get (run (toyEnv true) init shadowHistory).1.fs.dats 0).isSome = false ∧
+    (AL.get (run (toyEnv true) init shadowHistory).1.fs.olds 0).isSome = true := by decide
+
+/-- The regenerated structural fact: the invalid-record branch of LoadBlockIndex raises `maxdatfileidx` to the record's
+    data-file number, so the file to append to never goes back to a lower number after a restart. -/
+theorem fixed_code_invalid_counts : Gen.BlockDBFacts.invalidCountsFile = true := by decide
+
+/-- the second line of defence (`restoresBackup`), on a directory the store itself no longer produces: the current data
+    file is missing from the main directory and present in oldat/ — it is moved back, not shadowed, nothing is lost -/
+theorem create_cur_restores :
+    createCur { dats := [], olds := [(0, blkA)] } 0 = { dats := [(0, blkA)], olds := [] } := by decide
+
+/-! ## invalid while still queued: the block is forgotten, a block stored again under its hash is claimed -/
+
+def blkX : Bytes := mkBlock 5 90
+/-- same 80-byte header as `blkX` (the header bytes are the first 80), other body and length -/
+def blkX' : Bytes := blkX.take 80 ++ List.replicate 20 9
+/-- add X, BlockInvalid(X) while X is still queued, add X' (same hash), close, restart, get, length -/
+def readdHistory : List Op :=
+  [.reopen optsW, .add (hashW blkX) 10 1 false blkX, .invalid (hashW blkX), .add (hashW blkX') 11 2 false blkX', .close,
+   .reopen optsW, .get (hashW blkX'), .length (hashW blkX') true]
+
+set_option maxRecDepth 1000000 in
+/-- The scenario of the repair 6075761f carries a Lean claim: the specification forgets X with the store (`forgets`), the
+    second add is a new entry, and after close + restart `store_refines_map` DEMANDS X' (100 bytes), which the model
+    returns; the restart lists X' with height 11 / 2 transactions (`reopen_index` speaks about `specFinal`, which holds
+    X'). -/
+theorem readd_after_queued_invalid_claimed :
+    hashW blkX = hashW blkX' ∧
+    specRunR (toyEnv true) init {} readdHistory
+      = [.nothing, .nothing, .nothing, .nothing, .nothing, .nothing, .data blkX' false, .len 100] ∧
+    (run (toyEnv true) init readdHistory).2.drop 5
+      = [.walk [⟨hashW blkX', blkX'.take 80, 11, 100, 2⟩], .data blkX' false, .len 100] ∧
+    (AL.get (specFinal (toyEnv true) init {} readdHistory).m (keyOf (hashW blkX'))).map (fun e => (e.raw, e.height, e.tainted))
+      = some (blkX', 11, false) := by decide
 
 end GocoinV.Props.C16
+
